@@ -305,7 +305,8 @@ func (w *World) flowsOnlyToLogging(v ssa.Value) (bool, ssa.Instruction) {
 	var bad ssa.Instruction
 	var walk func(v ssa.Value)
 	isLoggingObj := func(o *types.Func) bool {
-		return o != nil && o.Pkg() != nil && (o.Pkg().Path() == full("logging") || o.Pkg().Path() == "log")
+		// logging and metrics are observation sinks: what reaches them does not come back into execution
+		return o != nil && o.Pkg() != nil && (o.Pkg().Path() == full("logging") || o.Pkg().Path() == "log" || o.Pkg().Path() == full("metrics") || strings.HasPrefix(o.Pkg().Path(), "github.com/rcrowley/go-metrics"))
 	}
 	pureHelper := func(o *types.Func) bool {
 		if o == nil || o.Pkg() == nil {
